@@ -25,6 +25,7 @@ import (
 	"sort"
 	"strings"
 	"sync"
+	"sync/atomic"
 	"testing"
 	"testing/synctest"
 	"time"
@@ -104,8 +105,9 @@ func runCmt(t *testing.T, tk []string) string {
 		v int16
 	}
 	pending := map[int][]pend{}
+	var wireOff atomic.Bool // set before the member is closed in mark mode (see below)
 	net.OnRequest = func(conn int, key int16, frame []byte, act sim.Action) {
-		if key != 8 || len(frame) < 8 {
+		if key != 8 || len(frame) < 8 || wireOff.Load() {
 			return
 		}
 		v := int16(uint16(frame[2])<<8 | uint16(frame[3]))
@@ -197,7 +199,7 @@ func runCmt(t *testing.T, tk []string) string {
 		return resp.AppendTo(append([]byte(nil), hdr...))
 	}
 	net.OnResponse = func(conn int, key int16, frame []byte, delivered bool) {
-		if key != 8 {
+		if key != 8 || wireOff.Load() {
 			return
 		}
 		wmu.Lock()
@@ -304,7 +306,17 @@ func runCmt(t *testing.T, tk []string) string {
 	backoff := []time.Duration{10 * time.Millisecond, 10 * time.Millisecond, 60 * time.Millisecond, 250 * time.Millisecond}[seed%4]
 	common := []kgo.Opt{kgo.SeedBrokers(cluster.ListenAddrs()...), kgo.Dialer(net.Stack.DialContext),
 		kgo.RetryBackoffFn(func(int) time.Duration { return backoff })}
-	gopts := append([]kgo.Opt{kgo.ConsumerGroup("g"), kgo.ConsumeTopics(topicNames...), kgo.DisableAutoCommit(),
+	// mark mode (a third of the scenarios without a second member): the member uses AutoCommitMarks with an autocommit
+	// interval far beyond the scenario instead of DisableAutoCommit, and a fourth commit API is generated:
+	// MarkCommitOffsets(every partition -> 1000+k) followed by CommitMarkedOffsets, the commit of "what is marked"
+	// (the same tail as CommitUncommittedOffsets), whose only result is the error it returns
+	markMode := !rebalance && seed%3 == 1
+	acOpt := kgo.DisableAutoCommit()
+	if markMode {
+		acOpt = kgo.AutoCommitMarks()
+		hx.St.Inc("scen.cmt.mark-mode")
+	}
+	gopts := append([]kgo.Opt{kgo.ConsumerGroup("g"), kgo.ConsumeTopics(topicNames...), acOpt, kgo.AutoCommitInterval(time.Hour),
 		kgo.SessionTimeout(6 * time.Second), kgo.HeartbeatInterval(300 * time.Millisecond), kgo.RebalanceTimeout(4 * time.Second),
 		kgo.FetchMaxWait(50 * time.Millisecond)}, common...)
 	cl, err := kgo.NewClient(gopts...)
@@ -502,6 +514,9 @@ func runCmt(t *testing.T, tk []string) string {
 			hx.St.Inc("scen.cmt.short-context")
 		}
 		api := crng.Intn(3)
+		if markMode && crng.Chance(40) {
+			api = 3
+		}
 		if k >= kpat && k <= kpat+2 {
 			api = 0 // all three asynchronous: a synchronous commit waits (outside its context) for every commit in flight
 		}
@@ -514,6 +529,31 @@ func runCmt(t *testing.T, tk []string) string {
 			log.Add("Cs:%d:s:%s", k, strings.Join(desc, ","))
 			done.Add(1)
 			cl.CommitOffsetsSync(cctx, commitMap, onDone)
+		case 3:
+			// every partition of both topics is marked, so that what is marked is exactly this commit's offset for
+			// every partition (a mark left over from an earlier failed commit would otherwise ride along)
+			all := map[string]map[int32]kgo.EpochOffset{}
+			desc = desc[:0]
+			for ti, tn := range topicNames {
+				all[tn] = map[int32]kgo.EpochOffset{}
+				for p := 0; p < parts; p++ {
+					all[tn][int32(p)] = kgo.EpochOffset{Epoch: -1, Offset: int64(1000 + k)}
+					desc = append(desc, fmt.Sprintf("%d=%d", 100*ti+p, 1000+k))
+				}
+			}
+			sort.Strings(desc)
+			log.Add("Cs:%d:m:%s", k, strings.Join(desc, ","))
+			cl.MarkCommitOffsets(all)
+			err := cl.CommitMarkedOffsets(cctx)
+			res := "ok"
+			if err != nil {
+				res = "err"
+			}
+			log.Add("Ce:%d:%s", k, res)
+			if short && res == "err" {
+				log.Add("Cunknown")
+			}
+			hx.St.Inc("scen.cmt.commit-marked." + res)
 		default:
 			log.Add("Cs:%d:r:%s", k, strings.Join(desc, ","))
 			var recs []*kgo.Record
@@ -614,6 +654,9 @@ func runCmt(t *testing.T, tk []string) string {
 			log.Add("ERRoffsetfetch")
 		}
 		adm.Close()
+	}
+	if markMode {
+		wireOff.Store(true) // leaving the group commits whatever is still marked: not one of the scenario's commits
 	}
 	cl.Close()
 	cancel()
